@@ -357,10 +357,16 @@ def _only_error_exits(body, start, avoid):
     return True
 
 
+def r5_ack_lists(ctx):
+    import rules.C10 as C10
+    C10.r1_boundaries(ctx)
+
+
 RULES = [
     ("C11.R1", "send gates test content (not the outer length of nested buffers); predicates/flags/sections agree", r1_send_gates, 8, ["default", "all-features", "server-only"]),
     ("C11.R2", "acknowledgement stores the recorded tick, only for known messages, forward-only", r2_ack, 6, ["default", "all-features", "server-only"]),
     ("C11.R3", "closed set of writers of the per-entity mutation tick", r3_writers, 5, ["default", "all-features", "server-only"]),
     ("C11.R4", "the client acknowledges exactly what it buffered and always sends the acks", r4_client_acks, 8, ["default", "all-features", "client-only"]),
+    ("C11.R5", "an acknowledgement covers exactly the entities whose data travelled in that message, so acknowledging one message never skips data of another (same rule as C10.R1)", r5_ack_lists, 12, ["default", "all-features", "server-only"]),
 ]
 THOROUGH_CONFIGS = ["default", "all-features", "server-only", "client-only"]
